@@ -500,7 +500,7 @@ Section Stop.
       + cbn [ob_proj ob_basis ob_recs]. rewrite !zlist_eqb_refl. cbn [andb].
         apply list_eqb_refl, doff_eqb_refl.
       + rewrite Forall_forall in *. intros r Hr.
-        destruct (Hfit r Hr) as (H1 & H2 & H3 & H4 & H5 & H6 & H7 & H8 & H9 & H10 & H11).
+        destruct (Hfit r Hr) as (H1 & H2 & H3 & H4 & H5 & H6 & H7 & H8 & H9 & H10 & H11 & H12).
         specialize (Hnb r Hr). repeat split; try assumption; try apply H4; try apply H2; try apply H3;
           try apply H8; try apply H9; try apply H10; lia.
   Qed.
@@ -530,6 +530,14 @@ Section Main.
   Let Hdec : dec7_near (sp_tbn sp) (sp_tbd sp) (sp_tbm sp) (sp_tbe sp) = true. Proof. apply Hwf. Qed.
   Let Hf64 : f64_near (sp_tbn sp) (sp_tbd sp) (sp_tb64 sp) = true. Proof. apply Hwf. Qed.
 
+  Lemma pre_is_fits c l : Forall (pubrec_fits sp c) l -> pre_is (sp_npre sp) l = true.
+  Proof.
+    intros H. unfold pre_is. rewrite forallb_forall. rewrite Forall_forall in H. intros r Hr.
+    destruct (H r Hr) as (_ & _ & _ & _ & _ & _ & _ & _ & _ & _ & _ & E). lia.
+  Qed.
+  Lemma fits_accepted22 c n l : Forall (pubrec_fits sp c) l -> Forall (pubrec_fits sp c) (accepted22 n l).
+  Proof. intros H. rewrite Forall_forall in *. intros r Hr. apply H. now apply accepted22_sub in Hr. Qed.
+
   (* ---- STOP ---- *)
   Lemma stop_rel st c acc accoff p :
     In c cs -> chan_rel sp st c acc accoff p ->
@@ -539,7 +547,8 @@ Section Main.
     unfold chan_files_ok, Model.stop_chan. cbn [snd cf22 cf3 cfoff].
     apply andb_true_iff; split; [apply andb_true_iff; split|].
     - destruct (p22 p) as [[h s]|].
-      + destruct H22 as (-> & -> & Hi). apply file22_ok_closed; assumption.
+      + destruct H22 as (-> & -> & Hi). apply andb_true_iff; split;
+          [apply file22_ok_closed; assumption | apply (pre_is_fits c), fits_accepted22; assumption].
       + rewrite H22. reflexivity.
     - destruct (p3 p) as [[h s]|].
       + destruct H3 as (-> & -> & Hi). apply file3_ok_closed; assumption.
@@ -551,7 +560,7 @@ Section Main.
           destruct (cp_proj c) as [[[pj' bs'] d']|] eqn:Ep; [|discriminate].
           destruct ((0 <? m_rows pj') && (0 <? m_cols pj')); [|discriminate]. inversion Hel; subst.
           eapply Hmx; eauto. }
-        apply fileoff_ok_closed; try assumption; apply Hm.
+        apply andb_true_iff; split; [apply fileoff_ok_closed; try assumption; apply Hm | apply (pre_is_fits c); assumption].
       + destruct Hoff as [-> | ->]; [reflexivity|]. destruct (s_toff st); reflexivity.
   Qed.
 
@@ -703,13 +712,15 @@ Section Main.
   Qed.
 
   (* ---- one step ---- *)
+  Definition not_pulse (o : bop) : Prop := match o with BPulse _ _ => False | _ => True end.
+
   Lemma step_preserves st ps o :
-    op_wf sp cs o -> BInv sp cs st ps ->
+    not_pulse o -> op_wf sp cs o -> BInv sp cs st ps ->
     let r := bstep sp cs ps o in
     step_ok sp cs st o (snd r) = true /\ BInv sp cs (sstep cs st o (snd r)) (fst r).
   Proof.
-    intros Hop HI r. subst r. destruct Hwf as (Hne & _).
-    destruct o as [t22 t3 toff | ch rs | ch | | | ].
+    intros Hnp Hop HI r. subst r. destruct Hwf as (Hne & _).
+    destruct o as [t22 t3 toff | ch rs | ch | | | | pn pp]; [| | | | | | contradiction Hnp].
     - (* START *)
       cbn [Model.bstep]. unfold start.
       destruct (negb (t22 || toff || t3)) eqn:Eno; [split; [reflexivity | exact HI]|].
@@ -802,62 +813,125 @@ End Main.
 
 (* ================================================================ whole histories *)
 
+Lemma cfg_wf_pulse sp cs npre nsamp :
+  cfg_wf sp cs -> 0 <= nsamp -> cfg_wf (with_lens sp npre nsamp) (map clear_proj cs).
+Proof.
+  intros (Hne & Hns & Hd & Hf & Hm) Hn. split; [|split; [|split; [|split]]].
+  - destruct cs; [congruence | discriminate].
+  - exact Hn.
+  - exact Hd.
+  - exact Hf.
+  - intros c pj bs desc Hin Hp. apply in_map_iff in Hin as (c0 & <- & _). discriminate Hp.
+Qed.
+
 Section Histories.
   Variable render22 : hdr22 -> list Z.
   Variable render3 : hdr3 -> list Z.
   Variable renderoff : hdroff -> list Z.
-  Variable sp : srcp.
-  Variable cs : list chanp.
-  Hypothesis Hwf : cfg_wf sp cs.
 
   Notation bstep := (bstep render22 render3 renderoff true).
-  Notation brun := (brun render22 render3 renderoff true).
+  Notation cstep := (cstep render22 render3 renderoff true).
+  Notation crun := (crun render22 render3 renderoff true).
   Notation BInv := (BInv render22 render3 renderoff).
 
-  Lemma BInv_init : BInv sp cs (s_init cs) (binit cs).
+  Lemma BInv_init sp cs : BInv sp cs (s_init cs) (binit cs).
   Proof.
     unfold Proofs.BInv, s_init, binit. cbn [s_active]. split; [|now rewrite map_length].
     apply Forall_map, Forall_forall. intros; reflexivity.
   Qed.
 
-  Lemma brun_cons ps o ops :
-    brun sp cs ps (o :: ops) =
-    (fst (brun sp cs (fst (bstep sp cs ps o)) ops), snd (bstep sp cs ps o) :: snd (brun sp cs (fst (bstep sp cs ps o)) ops)).
+  Lemma cstep_preserves_np sp cs st ps o :
+    not_pulse o -> cfg_wf sp cs -> op_wf sp cs o -> BInv sp cs st ps ->
+    let r := cstep sp cs ps o in
+    let sp' := fst (fst (fst r)) in let cs' := snd (fst (fst r)) in let ps' := snd (fst r) in
+    cstep_ok sp cs st o (snd r) = true /\ cfg_step sp cs o (snd r) = (sp', cs') /\
+    cfg_wf sp' cs' /\ BInv sp' cs' (sstep cs st o (snd r)) ps'.
   Proof.
-    cbn [Model.brun]. destruct (bstep sp cs ps o) as [ps1 r]. cbn [fst snd].
-    destruct (brun sp cs ps1 ops) as [ps2 rs]. reflexivity.
+    intros Hnp Hwf Hop HI.
+    pose proof (step_preserves render22 render3 renderoff sp cs Hwf st ps o Hnp Hop HI) as Hs.
+    assert (Ec : cstep sp cs ps o = (sp, cs, fst (bstep sp cs ps o), snd (bstep sp cs ps o))).
+    { destruct o; try contradiction; cbn [Model.cstep]; destruct (bstep sp cs ps _); reflexivity. }
+    cbn zeta in *. rewrite Ec. cbn [fst snd]. destruct Hs as (Hok & HI').
+    assert (E1 : cstep_ok sp cs st o (snd (bstep sp cs ps o)) = step_ok sp cs st o (snd (bstep sp cs ps o)))
+      by (destruct o; try contradiction; reflexivity).
+    assert (E2 : cfg_step sp cs o (snd (bstep sp cs ps o)) = (sp, cs))
+      by (destruct o; try contradiction; reflexivity).
+    rewrite E1, E2. auto.
   Qed.
 
-  Lemma run_passes : forall ops st ps,
-    Forall (op_wf sp cs) ops -> BInv sp cs st ps ->
-    check_from sp cs st (combine ops (snd (brun sp cs ps ops))) = true.
+  (* one request against (tables, publishers): the observation is acceptable, the checker computes the same new
+     tables as the model, well-formedness and the invariant are kept *)
+  Lemma cstep_preserves sp cs st ps o :
+    cfg_wf sp cs -> op_wf sp cs o -> BInv sp cs st ps ->
+    let r := cstep sp cs ps o in
+    let sp' := fst (fst (fst r)) in let cs' := snd (fst (fst r)) in let ps' := snd (fst r) in
+    cstep_ok sp cs st o (snd r) = true /\ cfg_step sp cs o (snd r) = (sp', cs') /\
+    cfg_wf sp' cs' /\ BInv sp' cs' (sstep cs st o (snd r)) ps'.
   Proof.
-    induction ops as [|o ops IH]; intros st ps Hops HI; [reflexivity|].
-    inversion Hops; subst. rewrite brun_cons. cbn [snd combine check_from].
-    destruct (step_preserves render22 render3 renderoff sp cs Hwf st ps o H1 HI) as (Hok & HI').
-    rewrite Hok. cbn [andb]. apply IH; assumption.
+    intros Hwf Hop HI.
+    destruct o as [t22 t3 toff | ch rs | ch | | | | pn pp];
+      try (apply cstep_preserves_np; [exact I | assumption | assumption | assumption]).
+    (* ConfigurePulseLengths *)
+    cbn [Model.cstep]. unfold pulse.
+    destruct ((pn <=? 0) || (pp <=? 0)) eqn:E1; [cbn; auto|].
+    destruct ((sp_npre sp =? pp) && (sp_nsamp sp =? pn)) eqn:E2.
+    { cbn [fst snd cstep_ok cfg_step sstep]. unfold lens_change. rewrite E2. cbn [negb]. rewrite orb_true_r. auto. }
+    destruct (existsb has_writer ps) eqn:E3; [cbn; auto|].
+    destruct ((pp <? 3) || (pn <? 1) || (pn <? pp + 1)) eqn:E4; [cbn; auto|].
+    cbn [fst snd cstep_ok cfg_step sstep]. unfold lens_change. rewrite E2. cbn [negb].
+    assert (Hina : s_active st = false).
+    { unfold Proofs.BInv in HI. destruct (s_active st); [|reflexivity]. destruct HI as (_ & HI). congruence. }
+    rewrite Hina. cbn [negb orb]. split; [reflexivity|]. split; [reflexivity|].
+    split; [apply cfg_wf_pulse; [exact Hwf | lia]|].
+    unfold Proofs.BInv in *. rewrite Hina in *. destruct HI as (Hnw & Hlen). split; [exact Hnw | now rewrite map_length].
   Qed.
 
-  Lemma model_passes_checker_lemma ops :
-    Forall (op_wf sp cs) ops ->
-    C05_bench_check sp cs (combine ops (snd (brun sp cs (binit cs) ops))) = true.
-  Proof. intros H. apply run_passes; [exact H | apply BInv_init]. Qed.
-
-  Lemma sst_before_0 st h : sst_before cs st h 0 = st.
-  Proof. destruct h; reflexivity. Qed.
-
-  (* the invariant holds before every step *)
-  Lemma inv_before : forall ops st ps k,
-    Forall (op_wf sp cs) ops -> BInv sp cs st ps ->
-    BInv sp cs (sst_before cs st (combine ops (snd (brun sp cs ps ops))) k) (fst (brun sp cs ps (firstn k ops))).
+  Lemma crun_cons sp cs ps o ops :
+    crun sp cs ps (o :: ops) =
+    (let r := cstep sp cs ps o in
+     let n := crun (fst (fst (fst r))) (snd (fst (fst r))) (snd (fst r)) ops in
+     (fst n, snd r :: snd n)).
   Proof.
-    induction ops as [|o ops IH]; intros st ps k Hops HI.
-    - destruct k; cbn; exact HI.
-    - destruct k as [|k]; [rewrite sst_before_0; exact HI|].
-      inversion Hops; subst. rewrite brun_cons. cbn [snd combine sst_before firstn].
-      rewrite brun_cons. cbn [fst].
-      destruct (step_preserves render22 render3 renderoff sp cs Hwf st ps o H1 HI) as (_ & HI').
-      apply IH; assumption.
+    cbn [Model.crun]. destruct (cstep sp cs ps o) as [[[sp1 cs1] ps1] r]. cbn [fst snd].
+    destruct (crun sp1 cs1 ps1 ops) as [fin rs]. reflexivity.
+  Qed.
+
+  Lemma run_passes : forall ops sp cs st ps,
+    cfg_wf sp cs -> BInv sp cs st ps ->
+    hist_wf sp cs (combine ops (snd (crun sp cs ps ops))) ->
+    check_from sp cs st (combine ops (snd (crun sp cs ps ops))) = true.
+  Proof.
+    induction ops as [|o ops IH]; intros sp cs st ps Hwf HI Hh; [reflexivity|].
+    rewrite crun_cons in *. cbn [snd combine check_from hist_wf] in *. destruct Hh as (Hop & Hrest).
+    destruct (cstep_preserves sp cs st ps o Hwf Hop HI) as (Hok & Hcfg & Hwf' & HI').
+    rewrite Hok. cbn [andb]. rewrite Hcfg in *. apply IH; assumption.
+  Qed.
+
+  Lemma model_passes_checker_lemma sp cs ops :
+    cfg_wf sp cs ->
+    hist_wf sp cs (combine ops (snd (crun sp cs (binit cs) ops))) ->
+    C05_bench_check sp cs (combine ops (snd (crun sp cs (binit cs) ops))) = true.
+  Proof. intros Hwf H. apply run_passes; [exact Hwf | apply BInv_init | exact H]. Qed.
+
+  Lemma chk_before_0 sp cs st h : chk_before sp cs st h 0 = (sp, cs, st).
+  Proof. destruct h as [|[o b] r]; reflexivity. Qed.
+
+  (* the invariant holds before every step, for the tables in force there *)
+  Lemma inv_before : forall ops sp cs st ps k,
+    cfg_wf sp cs -> BInv sp cs st ps ->
+    hist_wf sp cs (combine ops (snd (crun sp cs ps ops))) ->
+    let chk := chk_before sp cs st (combine ops (snd (crun sp cs ps ops))) k in
+    let m := fst (crun sp cs ps (firstn k ops)) in
+    fst (fst chk) = fst (fst m) /\ snd (fst chk) = snd (fst m) /\
+    cfg_wf (fst (fst m)) (snd (fst m)) /\ BInv (fst (fst m)) (snd (fst m)) (snd chk) (snd m).
+  Proof.
+    induction ops as [|o ops IH]; intros sp cs st ps k Hwf HI Hh.
+    - destruct k; cbn; auto.
+    - destruct k as [|k]; [cbn zeta; rewrite chk_before_0; cbn; auto|].
+      cbn zeta. cbn [firstn]. rewrite !crun_cons in *. cbn [snd combine hist_wf] in Hh. destruct Hh as (Hop & Hrest).
+      cbn [fst snd combine chk_before].
+      destruct (cstep_preserves sp cs st ps o Hwf Hop HI) as (Hok & Hcfg & Hwf' & HI').
+      rewrite Hcfg in *. apply IH; assumption.
   Qed.
 End Histories.
 
@@ -870,11 +944,13 @@ Proof.
 Qed.
 
 Lemma file_is_header_plus_records_lemma :
-  forall (render22 : hdr22 -> list Z) (render3 : hdr3 -> list Z) (renderoff : hdroff -> list Z) sp cs ops k,
-    cfg_wf sp cs -> Forall (op_wf sp cs) ops ->
-    let obs := snd (brun render22 render3 renderoff true sp cs (binit cs) ops) in
-    let st := sst_before cs (s_init cs) (combine ops obs) k in
-    let ps := fst (brun render22 render3 renderoff true sp cs (binit cs) (firstn k ops)) in
+  forall (render22 : hdr22 -> list Z) (render3 : hdr3 -> list Z) (renderoff : hdroff -> list Z) sp0 cs0 ops k,
+    cfg_wf sp0 cs0 ->
+    let obs := snd (crun render22 render3 renderoff true sp0 cs0 (binit cs0) ops) in
+    hist_wf sp0 cs0 (combine ops obs) ->
+    let chk := chk_before sp0 cs0 (s_init cs0) (combine ops obs) k in
+    let sp := fst (fst chk) in let cs := snd (fst chk) in let st := snd chk in
+    let ps := snd (fst (crun render22 render3 renderoff true sp0 cs0 (binit cs0) (firstn k ops))) in
     s_active st = true ->
     all4 (fun c acc accoff p =>
       (* LJH 2.2 *)
@@ -905,10 +981,12 @@ Lemma file_is_header_plus_records_lemma :
                                   + zlen accoff * (36 + 4 * m_rows pj))))
       cs (s_acc st) (s_accoff st) ps.
 Proof.
-  intros render22 render3 renderoff sp cs ops k Hwf Hops obs st ps Hact.
-  pose proof (inv_before render22 render3 renderoff sp cs Hwf ops (s_init cs) (binit cs) k Hops
-                         (BInv_init render22 render3 renderoff sp cs)) as HI.
-  fold obs in HI. fold st in HI. fold ps in HI. unfold BInv in HI. rewrite Hact in HI. destruct HI as (X & _).
+  intros render22 render3 renderoff sp0 cs0 ops k Hwf obs Hh chk sp cs st ps Hact.
+  pose proof (inv_before render22 render3 renderoff ops sp0 cs0 (s_init cs0) (binit cs0) k Hwf
+                         (BInv_init render22 render3 renderoff sp0 cs0) Hh) as HI.
+  cbn zeta in HI. fold obs in HI. fold chk in HI. destruct HI as (E1 & E2 & _ & HI).
+  fold sp in E1. fold cs in E2. rewrite <- E1, <- E2 in HI. fold st in HI. fold ps in HI.
+  unfold BInv in HI. rewrite Hact in HI. destruct HI as (X & _).
   eapply all4_impl; [|exact X]. intros c acc accoff p _ (Hpz & Hf1 & Hf2 & Hnb & H22 & H3 & Hoff).
   split; [|split; [|split; [|split; [|split]]]].
   - intros T E. rewrite E in H22. congruence.
@@ -959,9 +1037,9 @@ Lemma pre_fix_witness :
   let sp := mksrcp 1 [76] 4 1 4 1 100000 4532020583610935537 1000000 (-5) in
   let cs := [mkchanp 0 [99] 1 4 2 2 1 2 0 0 [] None] in
   let ops := [BStart false true false; BPub 0 [mkrec 7 1000 1 [1; 2; 3; 4] 0 0 0 []]; BStop] in
-  cfg_wf sp cs /\ Forall (op_wf sp cs) ops /\
-  C05_bench_check sp cs (combine ops (snd (brun (fun _ => []) (fun _ => []) (fun _ => []) false sp cs (binit cs) ops))) = false /\
-  C05_bench_check sp cs (combine ops (snd (brun (fun _ => []) (fun _ => []) (fun _ => []) true sp cs (binit cs) ops))) = true.
+  cfg_wf sp cs /\ hist_wf sp cs (combine ops (snd (crun (fun _ => []) (fun _ => []) (fun _ => []) true sp cs (binit cs) ops))) /\
+  C05_bench_check sp cs (combine ops (snd (crun (fun _ => []) (fun _ => []) (fun _ => []) false sp cs (binit cs) ops))) = false /\
+  C05_bench_check sp cs (combine ops (snd (crun (fun _ => []) (fun _ => []) (fun _ => []) true sp cs (binit cs) ops))) = true.
 Proof.
   intros sp cs ops. split; [|split; [|split]].
   - split; [discriminate|]. split; [cbn; lia|]. split; [vm_compute; reflexivity|]. split; [vm_compute; reflexivity|].
@@ -973,6 +1051,7 @@ Qed.
 
 Lemma model_passes_checker_full :
   forall (render22 : hdr22 -> list Z) (render3 : hdr3 -> list Z) (renderoff : hdroff -> list Z) sp cs ops,
-    cfg_wf sp cs -> Forall (op_wf sp cs) ops ->
-    C05_bench_check sp cs (combine ops (snd (brun render22 render3 renderoff true sp cs (binit cs) ops))) = true.
+    cfg_wf sp cs ->
+    hist_wf sp cs (combine ops (snd (crun render22 render3 renderoff true sp cs (binit cs) ops))) ->
+    C05_bench_check sp cs (combine ops (snd (crun render22 render3 renderoff true sp cs (binit cs) ops))) = true.
 Proof. intros. now apply model_passes_checker_lemma. Qed.
